@@ -255,3 +255,67 @@ func live(c *run.Ctx) {
 	runLive(c, mine)
 	c.End()
 }
+
+// clockValues: the VALUE of the three clock keywords (docs/usage/expressions.md, "Time Values"): `now` is
+// the unix timestamp cached when the expression is built, `live` the unix timestamp at evaluation, `delta`
+// the seconds since the expression was built. Each evaluation is bracketed by two readings of the same
+// clock taken by the harness; the value must be a plain decimal integer inside the bracket. No tolerance
+// and no dependence on scheduling: the bracket widens by exactly as much as the evaluation was delayed.
+func clockValues(c *run.Ctx) {
+	if c.Shard != 0 {
+		return
+	}
+	parse := func(s string) (int64, bool) {
+		for _, r := range s {
+			if (r < '0' || r > '9') && r != '-' {
+				return 0, false
+			}
+		}
+		var v int64
+		_, err := fmt.Sscanf(s, "%d", &v)
+		return v, err == nil
+	}
+	for round := 0; round < 3; round++ {
+		for _, opt := range []bool{true, false} {
+			for _, kw := range []string{"now", "live", "delta", "NOW", "Live"} {
+				tpl := "{time " + kw + "}"
+				cs := &Case{Kind: "clock", Tpl: tpl}
+				c.Begin(cs, 60*time.Second)
+				tc0 := time.Now().Unix()
+				cc := compile(stdBuilder(opt), tpl)
+				tc1 := time.Now().Unix()
+				if cc.st != stOK {
+					c.Violation("clock-compile:"+kw, fmt.Sprintf("%s does not compile (optimise=%v): %s", tpl, opt, cc.msg), cs)
+					c.End()
+					continue
+				}
+				if round > 0 {
+					time.Sleep(time.Duration(300*round) * time.Millisecond)
+				}
+				ctx := Ctx{E: []string{"x"}, K: map[string]string{}}
+				te0 := time.Now().Unix()
+				s, p := eval(cc, &ctx)
+				te1 := time.Now().Unix()
+				c.End()
+				if p || te1 < te0 || tc1 < tc0 || te0 < tc1 {
+					c.Count("clock_probe_skipped", 1) // panic is C08's; a clock stepping backwards voids the bracket
+					continue
+				}
+				v, ok := parse(s)
+				lo, hi := tc0, tc1
+				switch kw {
+				case "live", "Live":
+					lo, hi = te0, te1
+				case "delta":
+					lo, hi = te0-tc1, te1-tc0
+				}
+				c.Count("comparisons", 1)
+				c.Count("cmp_clock_value_bracketed", 1)
+				if !ok || v < lo || v > hi {
+					c.Violation("clock-value:"+kw, fmt.Sprintf("%s (optimise=%v) evaluated to %s; the documented value is a decimal integer in [%d, %d] (clock read before and after by the harness: built in [%d,%d], evaluated in [%d,%d])",
+						tpl, opt, run.Q(s), lo, hi, tc0, tc1, te0, te1), cs)
+				}
+			}
+		}
+	}
+}
